@@ -51,6 +51,17 @@ func genC01(g *gen) {
 			}
 		}
 	}
+	// a user-defined element type: reads over the whole box, single writes, through views and transpositions, copies
+	for _, ord := range []string{"C", "Fraw"} {
+		for _, sh := range []string{"4", "2,3", "2,3,2"} {
+			z := map[string]string{"4": "1", "2,3": "1,2", "2,3,2": "1,2,0"}[sh]
+			g.emit(fmt.Sprintf("new arr2 %s %s", sh, ord), "atbox $0 -1 1", "setat $0 "+z, "dump $0", "setat $0 "+map[string]string{"4": "0", "2,3": "0,0", "2,3,2": "0,0,0"}[sh], "dump $0")
+			if sh != "4" {
+				g.emit(fmt.Sprintf("new arr2 %s %s", sh, ord), "slice $0 1", "setat $1 "+map[string]string{"2,3": "2", "2,3,2": "2,1"}[sh], "dump $0", "dump $1", "clone $1", "setat $2 "+map[string]string{"2,3": "0", "2,3,2": "0,0"}[sh], "dump $2", "dump $0")
+				g.emit(fmt.Sprintf("new arr2 %s %s", sh, ord), "T $0 -", "atbox $0 0 0", "setat $0 "+map[string]string{"2,3": "2,1", "2,3,2": "1,2,1"}[sh], "dump $0", "memset $0", "dump $0")
+			}
+		}
+	}
 	// a mask hides nothing from addressing: At and SetAt on masked tensors (hard mask - the default - and soft), at
 	// masked and at valid coordinates, directly and through masked views
 	for _, dt := range []string{"i32", "f64", "str"} {
